@@ -1,9 +1,10 @@
 //! The response side of the real Http1Codec under a scripted transport and scripted drops of the listen future.
-//! in : ops head
+//! in : ops head [rounds]
 //!        ops  : flat (kind, arg) pairs: 0 the tunnel side offers a message of arg bytes (numbered on, 1 + n mod 251)
 //!                                      1 the listen future is polled after the transport has made room for arg more bytes
 //!                                      2 the listen future is dropped (the next poll or the close creates a new one)
 //!                                      3 the tunnel side ends the response; the transport takes everything; listen runs to its end
+//!                                      4 the same, but the transport takes nothing for arg (virtual) ms first: a client that pauses
 //!        head : the bytes of the response head the model is told about (checked against what the codec wrote first)
 //! out: offers wire_lengths wire [end]
 //!        offers       : one per offer, 1 accepted whole | 0 handed back
@@ -73,6 +74,21 @@ pub fn run(toks: Vec<Tok>) -> Vec<Tok> {
 }
 
 fn run_inner(toks: Vec<Tok>) -> Vec<Tok> {
+    // which of two ready events the codec handles first is its own coin toss: the script is run `rounds` times and the run
+    // that delivered least is reported
+    let rounds = toks.get(2).and_then(|t| t.first()).copied().unwrap_or(1).max(1);
+    let mut worst: Option<Vec<Tok>> = None;
+    for _ in 0..rounds {
+        let r = run_once(&toks);
+        let key = |v: &Vec<Tok>| (v.len() == 4 && v[3] == vec![1], v.get(2).map(|w| w.len()).unwrap_or(0));
+        if worst.as_ref().map(|w| key(&r) < key(w)).unwrap_or(true) {
+            worst = Some(r);
+        }
+    }
+    worst.unwrap()
+}
+
+fn run_once(toks: &[Tok]) -> Vec<Tok> {
     let ops: Vec<(u128, usize)> = toks[0].chunks(2).map(|c| (c[0], c[1] as usize)).collect();
     let head = bytes(&toks[1]);
     let rt = tokio::runtime::Builder::new_current_thread().enable_all().start_paused(true).build().unwrap();
@@ -125,6 +141,32 @@ fn run_inner(toks: Vec<Tok>) -> Vec<Tok> {
                         gate.lock().unwrap().room = 0;
                     }
                     2 => dropped = true,
+                    4 => {
+                        // the tunnel side ends the response while the client takes nothing for `arg` (virtual) ms; then it takes everything
+                        let _ = sink.eof();
+                        let mut waited = 0usize;
+                        loop {
+                            if let Poll::Ready(r) = futures::poll!(fut.as_mut()) {
+                                end = match r {
+                                    http1::Listened::Closed => 1,
+                                    _ => 2,
+                                };
+                            }
+                            if waited >= arg || end != 0 {
+                                break;
+                            }
+                            tokio::time::advance(Duration::from_millis(500)).await;
+                            waited += 500;
+                        }
+                        if end == 0 {
+                            gate.lock().unwrap().room = usize::MAX;
+                            end = match tokio::time::timeout(Duration::from_secs(30), fut.as_mut()).await {
+                                Ok(http1::Listened::Closed) => 1,
+                                Ok(_) => 2,
+                                Err(_) => 995,
+                            };
+                        }
+                    }
                     _ => {
                         let _ = sink.eof();
                         gate.lock().unwrap().room = usize::MAX;
